@@ -118,6 +118,22 @@ func newWorld(configured string) *world {
 	return w
 }
 
+// reopen closes the cache and opens it again (what a restart of the web UI does): no bug is loaded afterwards.
+func (w *world) reopen() {
+	hx.Must(w.mrc.Close())
+	repo, err := repository.OpenGoGitRepo(w.dir, "git-bug", nil)
+	hx.Must(err)
+	w.repo = repo
+	w.mrc = cache.NewMultiRepoCache()
+	rc, events := w.mrc.RegisterDefaultRepository(w.repo)
+	for e := range events {
+		hx.Must(e.Err)
+	}
+	w.rc = rc
+	w.noAuth = router(w.mrc, nil)
+	w.withAu = router(w.mrc, &w.user)
+}
+
 func (w *world) close() {
 	_ = w.mrc.Close()
 	_ = os.RemoveAll(w.dir)
